@@ -134,7 +134,11 @@ def check_value_ord(crate, rep, cfg):
     f_c2n = crate.one("value::cmp_f64_to_number")
     f_pcmp = crate.one("<value::Value as std::cmp::PartialOrd>::partial_cmp")
     f_cmp = crate.one("<value::Value as std::cmp::Ord>::cmp")
-    f_rank = crate.one("<value::Value as std::cmp::Ord>::cmp::type_order")
+    try:
+        f_rank = crate.one("<value::Value as std::cmp::Ord>::cmp::type_order")
+    except AnchorMissing:
+        # the kind-rank table hoisted out of cmp into a free function of the module
+        f_rank = crate.one("value::type_order")
     rep.analysed(f_as_i128, f_as_u128, f_c2n, f_pcmp, f_cmp, f_rank)
     t_i = option_table(f_as_i128, vi)
     t_u = option_table(f_as_u128, vi)
